@@ -504,7 +504,7 @@ class C20(Property):
         'pickOk_sound', 'scoped_checker_refines', 'never_crosses_inter', 'inScope_unit', 'search_wellformed', 'search_terminates', 'search_sorted', 'search_visited_final', 'checker_exact', 'coverage',
         'construct_covers', 'nodes_sound', 'nodes_concept', 'links_closed', 'links_symm', 'links_complete', 'graph_covers', 'graph_nodes_event',
         'old_construction_misses', 'old_agrees_when_sources_present', 'objects_covered',
-        'extract_mem', 'extract_meets_minimum', 'extract_shape', 'covered_in_instance',
+        'extract_mem', 'extract_meets_minimum', 'extract_shape', 'covered_in_instance', 'extract_antitone',
     )
     level_text = ('PARTIAL. Lean 4 theorems over (a) the confidence arithmetic of the miner on exact rationals: every noisy-or '
                   'combination (attribute, concept name and related concept confidences), the taint formula as the SDK computes '
